@@ -21,6 +21,8 @@ open Pcore.Format
 #print axioms C20_pad_side_text
 #print axioms C20_pad_side_pbB
 #print axioms C20_pad_side_int
+#print axioms C20_container_alt
+#print axioms C20_alt_line_break
 #print axioms C20_container_rec
 #print axioms C20_container_array
 #print axioms C20_container_hash
